@@ -41,8 +41,36 @@ def run(ck):
     c04.r2_single_caller(ck, rule="C05-R3b")
     c04.r3b_pop_after_rollback(ck, rule="C05-R3c")
     c04.r4_direction(ck, rule="C05-R3d")
+    r6_every_file_saved(ck)
     r4(ck, par)
     r5(ck, main, cmd_push, seq, par)
+
+
+def r6_every_file_saved(ck, rule="C05-R6"):
+    """What is in the in-memory file map after the rollbacks is the state to be written: ModifiedFiles::save hands every entry to
+    save_modified_file (a skipped entry keeps its stale on-disk state - e.g. the old name of a rename gone, the new name never written)."""
+    sv = ck.anchor("ModifiedFiles::<'arena, 'config>::save")
+    if sv is None:
+        return
+    its = [it for it in pt.iterations(sv, ck.prog) if "hash::map::" in it["iter_ty"] and "ModifiedFile" in it["iter_ty"]]
+    if not ck.require(len(its) == 1, rule, "save walks the file map once", "%d iterations over the file map in ModifiedFiles::save" % len(its), sv.where()):
+        return
+    it = its[0]
+    bf = it["body_fn"]
+    calls = {bb for bb, t, c in calls_named(bf, "rapidquilt::apply::common::save_modified_file") if bb in it["body"]}
+    ck.floor(rule, "save_modified_file calls per entry", len(calls), 1)
+    ck.require(pt.every_item_reaches(it, calls), rule, "every entry of the file map is written",
+               "an entry of the file map can be passed over without calling save_modified_file: that file keeps its stale on-disk state",
+               it["where"], ok_detail="every iteration (%s) crosses save_modified_file" % it["kind"])
+    # and the entry written is the entry drawn
+    for bb, t, c in calls_named(bf, "rapidquilt::apply::common::save_modified_file"):
+        args = [df.operand_expr(bf, a) for a in t["args"]]
+        if it["kind"] == "loop":
+            drawn = lambda x: df.mentions(x, lambda y: df.is_call(y, "hash::map::Iter<'a, K, V> as core::iter::traits::iterator::Iterator>::next"))
+        else:
+            drawn = lambda x: df.mentions(x, lambda y: isinstance(y, tuple) and y[0] == "param" and y[1] >= 2)
+        ck.require(sum(1 for a in args if drawn(a)) >= 2, rule, "name and content written are the pair drawn from the map",
+                   "save_modified_file is given %s" % [df.show(a, 50) for a in args], bf.where(t))
 
 
 # ---- R1 -----------------------------------------------------------------------------------------
